@@ -1,8 +1,76 @@
-import BrushVerif.Model.Wire
-/-! Driver for C11 (stub until the property's model exists). -/
+import BrushVerif.Model.Pipe
+/-!
+Driver for C11.
+* `C11 pipe <cap> <len> <width> <seed> <stage>…` with `<stage> = <inline 0|1>:<map 0|1>:<limit|->:<emit 0|1>:<sigpipe 0|1>`
+  → `<done|stuck> <out-length> <out-hash> <code,code,…>` for the leftmost-first/large-chunk schedule,
+  then ` | ` and the same for the rightmost-first/one-byte schedule (only run when some stage has a limit).
+* `C11 wait <pipefail 0|1> <bang 0|1> <code>…` → `<status> <c1,c2,…>`
+* `C11 strip <esc text>` → `<esc stripped>`
+* `C11 read <k> <esc text>` → `<esc line1> … <esc linek> <esc rest>`
+-/
 namespace BrushVerif.Drv.C11
-open BrushVerif.Wire
+open BrushVerif.Wire BrushVerif.Pipe
 
-def handle (_toks : List Str) : Str := "unimplemented".toList
+/-- the payload both sides generate: lines of `w` bytes (letters a..y, then newline), last byte newline -/
+def payloadByte (len w seed i : Nat) : Nat :=
+  if (i + 1) % w = 0 ∨ i + 1 = len then 10 else 97 + ((i * 7 + (i / w) * 3 + seed) % 25)
+
+def payloadGo (len w seed : Nat) : Nat → List Nat → List Nat
+  | 0, acc => acc
+  | i + 1, acc => payloadGo len w seed i (payloadByte len w seed i :: acc)
+
+def payload (len w seed : Nat) : List Nat := payloadGo len w seed len []
+
+/-- `tr a-y b-z` -/
+def trMap (b : Nat) : Nat := if 97 ≤ b ∧ b ≤ 121 then b + 1 else b
+
+def parseStage (t : Str) : Option Spec :=
+  match splitOnChar ':' t with
+  | [i, m, l, e, g] =>
+    let lim : Option (Option Nat) := if l = ['-'] then some none else (parseNat? l).map some
+    match lim with
+    | none => none
+    | some lim =>
+      some { inline := i = ['1'], f := if m = ['1'] then trMap else id, limit := lim,
+             emit := e = ['1'], sigpipe := g = ['1'] }
+  | _ => none
+
+def hash (l : List Nat) : Nat := l.foldl (fun h b => (h * 31 + b) % 1000000007) 7
+
+def showState (s : State) : Str :=
+  (if isDone s then "done".toList else "stuck".toList) ++ [' '] ++ natToStr s.out.length ++ [' '] ++
+    natToStr (hash s.out) ++ [' '] ++ joinWith [','] ((codes s).map natToStr)
+
+def big : Nat := 1099511627776
+
+def handlePipe (toks : List Str) : Str :=
+  match toks with
+  | cap :: len :: w :: seed :: stages =>
+    match parseNat? cap, parseNat? len, parseNat? w, parseNat? seed, stages.mapM parseStage with
+    | some cap, some len, some w, some seed, some specs =>
+      let s0 := init specs (payload len w seed)
+      let l := run cap big true big s0
+      let r := if specs.any (fun sp => sp.limit.isSome) then run cap big false big s0 else l
+      showState l ++ " | ".toList ++ showState r
+    | _, _, _, _, _ => "bad-pipe".toList
+  | _ => "bad-pipe".toList
+
+def handle (toks : List Str) : Str :=
+  match toks with
+  | ['p','i','p','e'] :: rest => handlePipe rest
+  | ['w','a','i','t'] :: pf :: bang :: cs =>
+    match cs.mapM parseNat? with
+    | some cs =>
+      let r := waitAll (pf = ['1']) (bang = ['1']) cs
+      natToStr r.1 ++ [' '] ++ (if r.2.isEmpty then ['-'] else joinWith [','] (r.2.map natToStr))
+    | none => "bad-wait".toList
+  | [['s','t','r','i','p'], t] => esc (dropTrailingNewlines (unesc t))
+  | [['r','e','a','d'], k, t] =>
+    match parseNat? k with
+    | some k =>
+      let r := readLines k (unesc t)
+      joinWith [' '] (r.1.map esc ++ [esc r.2])
+    | none => "bad-read".toList
+  | _ => "bad-request".toList
 
 end BrushVerif.Drv.C11
